@@ -55,5 +55,10 @@ func checkC12(c *Ctx, r *Report) {
 	checkCode128RoundTrip(c, r)
 	// "never smaller than the symbol": the margin the renderers add is not negative
 	checkMarginNonNegative(c, r)
+	checkNumericOnly(c, r) // the table lookups contents[i] - '0' of ITF / UPC / EAN rest on it
+	// the Data Matrix end-of-data handlers index the message and the codeword list: folded on the context model
+	checkDMX12EOD(c, r)
+	checkDMEdifactEOD(c, r)
+	checkDMC40EOD(c, r)
 	r.Note("not decided: termination of the Data Matrix mode loop (needs a ranking argument over data-dependent rewinds); the size clause (matrix never smaller than the symbol / the request) is decided by the rendering terms under C14")
 }
